@@ -24,7 +24,12 @@ PID = "C05"
 DICT_CANDIDATES = {"metric_dict": {"gamma": "mean"}, "integration_dict": {"method": "assume_linear"},
                    "integration_dict_target_val": {"method": "assume_linear"},
                    "integration_dict_cross_entropy": {"method": "gauss_hermite", "n_integration_samples": 3},
-                   "cluster_algo_dict": {"n_init": 1}, "nearest_neighbors_dict": {"n_neighbors": 2}, "sample_predictions_dict": {}}
+                   "cluster_algo_dict": {"n_init": 1}, "nearest_neighbors_dict": {"n_neighbors": 2}, "sample_predictions_dict": {},
+                   "mds_params": {"max_iter": 100}, "nn_params": {"n_neighbors": 1}}
+# second choice per dict-valued parameter (tried when the first one does not reproduce the event): defaults that a
+# method fills in lazily only show when the caller's dict does not contain the key yet
+DICT_CANDIDATES_ALT = {"metric_dict": {}, "cluster_algo_dict": {}, "nearest_neighbors_dict": {}, "mds_params": {}, "nn_params": {},
+                       "integration_dict": {}, "integration_dict_target_val": {}, "integration_dict_cross_entropy": {}}
 
 
 OTHER_CANDIDATES = [{"__ndarray__": [1.0, 0.4, 0.7, 0.2]}, {"__ndarray__": [[1.0], [0.4], [0.7], [0.2]]},
@@ -100,6 +105,17 @@ def paramflow_pass(tier, known, modules=("skactiveml.pool", "skactiveml.pool.mul
                             found = f2
                             break
                 hit = [f for f in found if f[0] in wants and (e["kind"] != "param_write" or e["what"] in f[1])]
+                if not hit and any(v == {"dict": True} for v in cfg.values()):
+                    alt = dict(DICT_CANDIDATES, **DICT_CANDIDATES_ALT)
+                    for args_alt in ({a: v for a, v in e["args"].items() if "arg:" + a in rel}, {}):
+                        try:
+                            f2 = R.replay_query_side_effects(K, entry, cfg, dict_candidates=alt, args_config=args_alt)
+                        except Exception:
+                            continue
+                        res["validated"] += 1
+                        hit = [f for f in f2 if f[0] in wants]
+                        if hit:
+                            break
                 if not hit and e["kind"] == "alias_mutation":
                     # the aliased parameter has an unspecified non-None value in the abstract configuration ("other"):
                     # search a concrete witness among generic array-likes (unsorted, so that in-place sorting / writes show)
@@ -356,3 +372,37 @@ HARNESSES.append(common.dual_harness(
      "skactiveml.classifier._parzen_window_classifier:ParzenWindowClassifier.fit", "skactiveml.utils._aggregation:compute_vote_vectors",
      "skactiveml.base:SkactivemlClassifier._validate_data"],
     required_witnesses=("some_labeled",), product_abstraction=True))
+
+
+# ---------------------------------------------------------------- Quire on a caller-owned precomputed kernel matrix
+def sc_quire_inputs(d, n):
+    """Quire(metric='precomputed'): X is the caller's kernel matrix - query must leave it (and y) unchanged, and a second
+    identical query returns the same utilities"""
+    from harness import C08
+    if d.sym:
+        d.c.assume_nonzero_div = True     # K + lambda*I is positive definite
+    lab, X, yv, y = C08._data(d, "Quire", n)
+    unl = [i for i in range(n) if not lab[i]]
+    if not unl or len(unl) == n:
+        if d.sym:
+            raise core.PathAbort("needs labeled and unlabeled samples")
+        return
+    X0, y0 = X.copy(), y.copy()
+    seed = d.integer("seed", 0, 2 ** 31 - 2)
+    try:
+        o1 = C08._call(d, "Quire", seed, X, y, None)
+        o2 = C08._call(d, "Quire", seed, X, y, None)
+    except (core.Unencodable, core.PathAbort):
+        raise
+    except Exception as e:
+        d.prove(False, "query_succeeds", info=dict(error=repr(e)[:160]))
+        return
+    d.prove(d.eq_arr(X, X0), "X_unchanged")
+    d.prove(d.eq_arr(y, y0), "y_unchanged")
+    d.prove(d.eq_arr(o1[1], o2[1], 1e-9), "second_identical_query_same_utilities")
+    d.witness(True, "ran")
+
+
+HARNESSES.append(common.dual_harness(
+    "quire_precomputed_inputs", sc_quire_inputs, lambda tier: [dict(n=3)],
+    ["skactiveml.pool._quire:Quire.query"], required_witnesses=("ran",), product_abstraction=True, timeout_ms=30000))
